@@ -482,6 +482,17 @@ def perturb(ev, schema, rel_up: bool, alt: bool = False):
     return {"banks": [{**b, "objs": [go(o) for o in b["objs"]]} for b in ev["banks"]]}
 
 
+def _nan_key(v):
+    "structural key under which NaN equals NaN"
+    if isinstance(v, float) and math.isnan(v):
+        return "NaN"
+    if isinstance(v, (list, tuple)):
+        return tuple(_nan_key(x) for x in v)
+    if isinstance(v, dict):
+        return tuple((k, _nan_key(x)) for k, x in v.items())
+    return v
+
+
 def decide_event(comp: Compiled, ev, modes=("lazy", "eager", "skip"), conditioning=True) -> Tuple[str, Any, List]:
     """Reference outcome for one event, UNSPEC when evaluation orders disagree or the
     discrete outcome is numerically ill-conditioned."""
@@ -490,7 +501,7 @@ def decide_event(comp: Compiled, ev, modes=("lazy", "eager", "skip"), conditioni
     if any(o[0] == "UNSPEC" for o in outs):
         u = [o for o in outs if o[0] == "UNSPEC"][0]
         return ("UNSPEC", u[1], base[2])
-    if any((o[0], o[1]) != (base[0], base[1]) for o in outs[1:]):
+    if any(_nan_key((o[0], o[1])) != _nan_key((base[0], base[1])) for o in outs[1:]):
         # rows may contain NaN-free floats only, so == is fine
         return ("UNSPEC", "evaluation orders disagree", base[2])
     if base[0] == "FAULT" and base[1] == "null_deref":
